@@ -78,6 +78,7 @@ def run(ck):
                 ck.violation("inside one process verify and decrypt disagree on the same file after the other operation had accepted a look-alike: verify(good) %s; decrypt(bad) %s; verify(bad) %s; decrypt(good) %s; verify(bad) %s" % tuple(p[:8] for p in parts),
                              {"class": None, "history": hl[int(cid[1:])][:6000] if int(cid[1:]) < len(hl) else "", "results": parts, "driver_flags": ck.impl_flags,
                               "replay": "feed the 'hist' line to harness/drv.cpp built against /repo"})
+    real_binary_paths(ck)
     ck.cov["distinct_nontrivial"] = len(distinct)
     ck.cov["disagreements_model_vs_impl"] = corr
     if corr and not [v for v in ck.violations if v[1].get("class") != K1]:
@@ -86,3 +87,127 @@ def run(ck):
     if ck.tier == "thorough":
         production_scale(ck)     # 40 MiB and > 4 GiB with the production constants (props/filegen.py)
     return finish_proof(ck, rule="every file goes through BOTH entry points with the same key: valid files, the same files under a one-bit-different key, every mutation class of C05, the malformed stream of C11, authentic files built outside the program (arbitrary body incl. empty / ragged / any pad byte, tag computed with python hmac, also decrypted with another thread count); verify runs with an output stream that records any write; input bytes compared before/after each operation. distinct = distinct (class, length, first 12 bytes)")
+
+
+def real_binary_paths(ck):
+    """The REAL program (main.cpp + valget + kernel) on real files, through both of its front ends - options and the interactive
+    prompts (answers on stdin) - : verify and decrypt of the same file must agree, and every input file must hold the same bytes
+    afterwards (names with and without the .wenc suffix, default output names; input and output on DIFFERENT file systems whose
+    inode numbers were made equal, where a "same file?" test that looks at the inode number alone goes wrong)."""
+    import base64, os, shutil, subprocess, hashlib
+    try:
+        exe = ck.impl_driver(kind="cli")
+    except wv.BuildError as e:
+        ck.notes.append("CLI build failed: " + str(e)[-200:])
+        return
+    r = ck.rng
+    d = os.path.join(ck.scratch, "ui")
+    os.makedirs(d)
+    key = rnd_bytes(r, 16)
+    K = base64.b64encode(key).decode()
+    plain = rnd_bytes(r, 5000)
+    open(os.path.join(d, "docs.txt"), "wb").write(plain)
+
+    def run(argv, stdin=None, cwd=d):
+        try:
+            p = subprocess.run([exe] + argv, cwd=cwd, input=stdin, stdout=subprocess.PIPE, stderr=subprocess.STDOUT, timeout=60)
+            return ("CRASH %d" % -p.returncode) if p.returncode < 0 else ("EXIT %d" % p.returncode), p.stdout.decode("utf-8", "replace")[-300:]
+        except subprocess.TimeoutExpired:
+            return "HANG", ""
+
+    def digest(names):
+        return {n: hashlib.sha256(open(os.path.join(d, n), "rb").read()).hexdigest() if os.path.isfile(os.path.join(d, n)) else None for n in names}
+    steps = []
+    st, out = run(["-e", "-i", "docs.txt", "-k", K, "-o", "backup.enc", "-n"])
+    st2, _ = run(["-e", "-i", "docs.txt", "-k", K, "-n", "--cmode", "2", "--hmode", "2"])
+    if st != "EXIT 0" or st2 != "EXIT 0":
+        ck.violation("option-driven encryption of a real file failed: %s / %s" % (st, st2), {"class": None, "output_tail": out})
+        return
+    inputs = ["docs.txt", "backup.enc", "docs.txt.wenc"]
+    before = digest(inputs)
+    runs = [("options: verify", ["-v", "-i", "backup.enc", "-k", K], None, None),
+            ("options: decrypt", ["-d", "-i", "backup.enc", "-k", K, "-o", "o1.bin"], None, "o1.bin"),
+            ("prompts: verify", [], ("v\nbackup.enc\n%s\n" % K).encode(), None),
+            ("prompts: decrypt, default output name, input name without .wenc", [], ("d\nbackup.enc\nn\n%s\n" % K).encode(), "backup.enc.wdec"),
+            ("prompts: decrypt, default output name, input name with .wenc", [], ("d\ndocs.txt.wenc\nn\n%s\n" % K).encode(), "docs.txt.wenc.wdec"),
+            ("prompts: decrypt, new output name", [], ("d\ndocs.txt.wenc\ny\no2.bin\n%s\n" % K).encode(), "o2.bin"),
+            ("prompts: verify again", [], ("v\ndocs.txt.wenc\n%s\n" % K).encode(), None)]
+    for name, argv, stdin, outname in runs:
+        st, out = run(argv, stdin)
+        ck.cov["evaluations"] += 1
+        after = digest(inputs)
+        rep = {"class": None, "front_end_and_operation": name, "argv": argv, "stdin": (stdin or b"").decode(), "status": st, "output_tail": out, "files_before": before, "files_after": after,
+               "replay": "in a directory with docs.txt (5000 random bytes), backup.enc and docs.txt.wenc (encrypted with -k K): run the Wencry binary built from /repo with this argv / stdin"}
+        if after != before:
+            ck.violation("an operation modified one of its input files (%s): %s" % (name, ", ".join(n for n in inputs if after[n] != before[n])), rep)
+            return
+        if st != "EXIT 0":
+            ck.violation("verify / decrypt of an authentic file through the real program did not succeed (%s): %s" % (name, st), rep)
+            return
+        if outname and (not os.path.isfile(os.path.join(d, outname)) or open(os.path.join(d, outname), "rb").read() != plain):
+            ck.violation("decryption through the real program reported success but %s does not hold the plaintext (%s)" % (outname, name), rep)
+            return
+    # input and output on different file systems with EQUAL inode numbers
+    dirs = []
+    for cand in ("/dev/shm", "/dev", "/run", "/tmp", "/var/tmp", d):
+        try:
+            if os.path.isdir(cand) and os.access(cand, os.W_OK) and os.stat(cand).st_dev not in [x[1] for x in dirs]:
+                dirs.append((cand, os.stat(cand).st_dev))
+        except OSError:
+            pass
+    twin = None
+    made = []
+    allmade = set()
+    try:
+        # memory file systems hand out increasing inode numbers: create files on the side that is behind until the numbers meet
+        for ai in range(len(dirs)):
+            for bi in range(ai + 1, len(dirs)):
+                if twin:
+                    break
+                da, db = dirs[ai][0], dirs[bi][0]
+                pa, pb, ia, ib = None, None, -1, -2
+                for k in range(1500):
+                    try:
+                        if pa is None or ia < ib:
+                            pa = os.path.join(da, "wv_twin_%d_a%d.wenc" % (os.getpid(), k))
+                            shutil.copy(os.path.join(d, "backup.enc"), pa)
+                            made.append(pa)
+                            allmade.add(pa)
+                            ia = os.stat(pa).st_ino
+                        elif pb is None or ib < ia:
+                            pb = os.path.join(db, "wv_twin_%d_b%d.out" % (os.getpid(), k))
+                            open(pb, "wb").close()
+                            made.append(pb)
+                            allmade.add(pb)
+                            ib = os.stat(pb).st_ino
+                    except OSError:
+                        break
+                    if pa and pb and ia == ib:
+                        twin = (pa, pb)
+                        break
+                    if abs(ia - ib) > 5000 and pa and pb:
+                        break
+                    for old in made[:-2]:        # keep only the two current candidates
+                        if old not in (pa, pb):
+                            try:
+                                os.remove(old)
+                            except OSError:
+                                pass
+                    made = [m for m in made if m in (pa, pb)]
+        if twin:
+            st, out = run(["-v", "-i", twin[0], "-k", K])
+            st2, out2 = run(["-d", "-i", twin[0], "-k", K, "-o", twin[1]])
+            ck.cov["evaluations"] += 1
+            ck.cov["inode_twin_run"] = "input %s and output %s: different file systems, same inode number" % twin
+            if (st == "EXIT 0") != (st2 == "EXIT 0"):
+                ck.violation("verify %s but decrypt %s on the same authentic file when input and output lie on different file systems and happen to have the same inode number" % (st, st2),
+                             {"class": None, "input": twin[0], "output": twin[1], "verify_output": out, "decrypt_output": out2})
+        else:
+            ck.cov["inode_twin_run"] = "no pair of writable file systems with matching inode numbers here (skipped)"
+    finally:
+        for p_ in allmade:
+            try:
+                os.remove(p_)
+            except OSError:
+                pass
+    ck.cov.setdefault("case_classes", {})["real-binary/options-and-prompts"] = len(runs)
